@@ -28,7 +28,7 @@ CHECKS = {
         note="TLC, mpmath (60+ digits), the BaseNonlinearFun call boundary, documented linear parts transcribed in Symbols.tla; tolerance 1e-10 relative (cover), 2e5 ulps (traces)"),
     "C03": dict(
         category="model_checking", design_ref="4/C03", engine="nonlin",
-        technique="TLC machine DealiasIn/Apply/DealiasOut on exact sparse spectra (Nonlin, MC_Nonlin) with alias-freeness and band invariants + replay of every terminal state into the real nonlinear functions",
+        technique="TLC machine DealiasIn/Apply/DealiasOut on exact sparse spectra (Nonlin, MC_Nonlin) with alias-freeness and band invariants + replay of every terminal state into the real nonlinear functions + all-N dealiasing lemmas (Apalache, Lemmas_apa) + TLC validation (Trace_Hooks) of the retained-mode counts logged by the hooks in this run and in the repository's own tests + composed-machine sessions (Session.tla, thorough)",
         text=("Nonlin.tla states the documented continuous operators (all four convection forms, gradient norm, polynomial, general nonlinear, 2D vorticity "
               "convection, 3D projected rotational convection, Leray, Cahn-Hilliard, Gray-Scott) as exact operations on sparse two-sided spectra with "
               "Gaussian-rational coefficients (true convolutions in Z^D). MC_Nonlin runs DealiasIn -> Apply -> DealiasOut from every sum of <= degree real "
@@ -142,7 +142,7 @@ CHECKS = {
         note="TLC, code-vs-code tolerance 1e-10 (each side bound to the specification by C01-C03)"),
     "C14": dict(
         category="model_checking", design_ref="4/C14", engine="rollout",
-        technique="TLC state machine of rollout/repeat/windows (MC_Rollout) + replay of every terminal state + TLC trace validation (Trace_Rollout) of recorded executions",
+        technique="TLC state machine of rollout/repeat/windows (MC_Rollout) + replay of every terminal state + TLC trace validation (Trace_Rollout) of recorded executions + TLC validation (Trace_Hooks) of the Trajectory/Windows events logged by the hooks in this run and in the repository's own tests",
         text=("MC_Rollout is the scan machine of rollout/repeat/stack_sub_trajectories over an injective integer bookkeeping stepper; TLC checks "
               "for every configuration (n, include_init, takes_aux, constant_aux, pytree and aux shapes, window lengths) that the machine equals "
               "the naive loop and terminates. Every terminal state is replayed into the real utilities (python-loop scan and jit) with exact "
@@ -152,7 +152,7 @@ CHECKS = {
         note="TLC, dump parser, injectivity of the bookkeeping stepper, jax.disable_jit / ordered debug callbacks for call logging"),
     "C15": dict(
         category="model_checking", design_ref="4/C15", engine="layout",
-        technique="TLC step machine of map_between_resolutions (Scale/ZeroOddballOld/CopyBlock/Rescale/ZeroOddballNew) and exact interpolant spectra (MC_Resample) + replay of every terminal state",
+        technique="TLC step machine of map_between_resolutions (Scale/ZeroOddballOld/CopyBlock/Rescale/ZeroOddballNew) and exact interpolant spectra (MC_Resample) + replay of every terminal state + all-N block lemmas (Apalache) + composed-machine sessions (Session.tla -simulate, replayed call by call) + TLC validation (Trace_Hooks) of Resample events + float32 child pass",
         text=("MC_Resample executes the resolution change as the code does, block by block, on the exact half-spectrum of every real basis function "
               "of the old grid (Nyquist modes included) for every (D, N, M) in range (all parity combinations, M = N+-1, integer ratios); TLC checks "
               "that every copied entry keeps its wavenumber, the mean is preserved for every state, and a mode both grids resolve is mapped to the same "
@@ -282,6 +282,14 @@ def main():
              "kind_free_text": "TLC dtype pipeline + two-session replay against an exact pivot"},
             {"name": "diff", "path": "spec/MC_Diff.tla harness/checks/c07.py", "serves_properties": ["C07"],
              "kind_free_text": "TLC exact derivative tables + replay into JAX AD"},
+            {"name": "session", "path": "spec/Session.tla harness/session.py", "serves_properties": ["C02", "C03", "C04", "C05", "C10", "C15"],
+             "kind_free_text": "composed machine: TLC -simulate behaviours of public API calls replayed call by call, whole state compared after every action"},
+            {"name": "hooktrace", "path": "spec/Trace_Hooks.tla harness/hooktrace.py", "serves_properties": ["C03", "C14", "C15"],
+             "kind_free_text": "TLC validation of hook-recorded events from our drivers and from the repository's own test-suite"},
+            {"name": "lemmas", "path": "spec/Lemmas_apa.tla", "serves_properties": ["C03", "C04", "C15"],
+             "kind_free_text": "Apalache: arithmetic lemmas for every N (unbounded integers)"},
+            {"name": "xsession", "path": "harness/xsession.py", "serves_properties": ["C05", "C10", "C15", "C16", "C17"],
+             "kind_free_text": "default-session (float32) child pass against the float64 parent"},
             {"name": "rollout", "path": "spec/MC_Rollout.tla spec/Trace_Rollout.tla harness/checks/c14.py", "serves_properties": ["C14"],
              "kind_free_text": "TLC state machine + replay + trace validation"},
         ],
